@@ -1117,9 +1117,20 @@ def _run(ctx):
                 pool += [gI(r_, n // r_, "C"), gI(r_, n // r_, "F"), gC2(r_, n // r_)]
         return pool
 
-    def hist_case(nD, nR, ops, wrong_adjoint=False, gd0=None, gr0=None):
-        """ops: list of 'gm' | ('sd', GSpec) | ('sr', GSpec)"""
-        poolD, poolR = hist_pool(nD), hist_pool(nR)
+    def same_shape_pool(g):
+        """geometries with the same FUNCTION SHAPE as g (re-assignments after `T` was taken keep the shape)"""
+        if len(g.fun_shape) == 1:
+            n_ = g.fun_shape[0]
+            return [g1("Continuous1D", n_), g1("Discrete", n_), gS(n_, n_)]
+        r_, c_ = g.fun_shape
+        return [gI(r_, c_, "C"), gI(r_, c_, "F"), gC2(r_, c_)]
+
+    def pool1(n):
+        return [g1("Continuous1D", n), g1("Discrete", n), g1("Default1D", n), gS(n, n)]
+
+    def hist_case(nD, nR, ops, wrong_adjoint=False, gd0=None, gr0=None, kind="fn"):
+        """ops: list of 'gm' | 'T' | ('sd', GSpec) | ('sr', GSpec)"""
+        poolD, poolR = (hist_pool(nD), hist_pool(nR)) if kind == "fn" else (pool1(nD), pool1(nR))
         gd0 = gd0 or rng.choice(poolD); gr0 = gr0 or rng.choice(poolR)
         A0 = nrs.randint(-3, 4, size=(nR, nD)).astype(float)
         B0 = A0.T.copy()
@@ -1127,40 +1138,52 @@ def _run(ctx):
             B0 = nrs.randint(-3, 4, size=(nD, nR)).astype(float)
             if np.array_equal(B0, A0.T):
                 B0[0, 0] += 1
-        optoks = [o if o == "gm" else f"{o[0]}={o[1].token}" for o in ops]
-        oplabels = [o if o == "gm" else f"{o[0]}={o[1].label}" for o in ops]
+        optoks = [o if isinstance(o, str) else f"{o[0]}={o[1].token}" for o in ops]
+        oplabels = [o if isinstance(o, str) else f"{o[0]}={o[1].label}" for o in ops]
         gdF, grF = gd0, gr0
-        cached_at = None; stale = False
+        cached_at = None; stale = False; t_at = None; after_T = False; gdT = grT = None
         for i_, o in enumerate(ops):
             if o == "gm":
                 cached_at = i_ if cached_at is None else cached_at
+            elif o == "T":
+                t_at = i_; gdT, grT = gdF, grF; after_T = False
             else:
-                if cached_at is not None:
+                if cached_at is not None and kind == "fn":
                     stale = True
+                if t_at is not None:
+                    after_T = True
                 if o[0] == "sd":
                     gdF = o[1]
                 else:
                     grF = o[1]
-        desc = {"history": oplabels, "A": A0.tolist(), "B": B0.tolist() if wrong_adjoint else "A^T", "dom0": gd0.label, "rng0": gr0.label, "dom0_token": gd0.token, "rng0_token": gr0.token,
+        desc = {"history": oplabels, "kind": kind, "A": A0.tolist(), "B": B0.tolist() if wrong_adjoint else "A^T", "dom0": gd0.label, "rng0": gr0.label, "dom0_token": gd0.token, "rng0_token": gr0.token,
                 "ops": optoks}
-        fam = "expansion" if "expansion" in (gdF.family, grF.family) else "plain"
+        allg = [gd0, gr0, gdF, grF] + [o[1] for o in ops if not isinstance(o, str)]
+        fam = "expansion" if any(g_.family == "expansion" and not (g_.label == "StepExpansion" and g_.par_dim == g_.fun_dim) for g_ in allg) else "plain"
         tag = "@history:geometry-reassigned-after-get_matrix" if stale else "@history:ops"
-        keyf = lambda aspect: f"LinearModel:{aspect}:fn:{fam}:{gdF.label}>{grF.label}{tag}"
-        tiekey = "tie:LinearModel:fn:object-history"
+        keyf = lambda aspect: f"LinearModel:{aspect}:{kind}:{fam}:{gdF.label}>{grF.label}{tag}"
+        tiekey = f"tie:LinearModel:{kind}:object-history"
         hh = ctx.extra_cov.setdefault("object_histories", {})
-        kk = f"len={len(ops)}:{'stale' if stale else ('cached' if cached_at is not None else 'uncached')}:{'wrong-adjoint' if wrong_adjoint else 'adjoint-pair'}"
+        kk = f"{kind}:len={len(ops)}:{'stale' if stale else ('cached' if cached_at is not None else 'uncached')}:{'wrong-adjoint' if wrong_adjoint else 'adjoint-pair'}" + \
+             ("" if t_at is None else (":keptT-then-reassigned" if after_T else ":keptT"))
         hh[kk] = hh.get(kk, 0) + 1
 
         def h(out):
             ctx.case("lin-object-history", desc)
             obs = {}
             with quiet():
-                M = LinearModel(lambda x: (A0 @ np.asarray(x).ravel()).reshape(M.range_geometry.fun_shape),
-                                lambda y: (B0 @ np.asarray(y).ravel()).reshape(M.domain_geometry.fun_shape), gr0.make(), gd0.make())
+                if kind == "fn":
+                    M = LinearModel(lambda x: (A0 @ np.asarray(x).ravel()).reshape(M.range_geometry.fun_shape),
+                                    lambda y: (B0 @ np.asarray(y).ravel()).reshape(M.domain_geometry.fun_shape), gr0.make(), gd0.make())
+                else:
+                    M = LinearModel(A0.copy(), range_geometry=gr0.make(), domain_geometry=gd0.make())
+                Tk = None
                 for o in ops:
                     try:
                         if o == "gm":
                             M.get_matrix()
+                        elif o == "T":
+                            Tk = M.T
                         elif o[0] == "sd":
                             M.domain_geometry = o[1].make()
                         else:
@@ -1168,21 +1191,26 @@ def _run(ctx):
                     except Exception:
                         pass
                 n_, m_ = int(M.domain_dim), int(M.range_dim)
-                for nm_, fn_ in (("fwd", lambda: cols(M.forward, n_)), ("adj", lambda: cols(M.adjoint, m_)),
-                                 ("tfwd", lambda: cols(M.T.forward, m_)), ("tadj", lambda: cols(M.T.adjoint, n_)),
-                                 ("tgm", lambda: dense(M.T.get_matrix())), ("gm", lambda: dense(M.get_matrix()))):
+                probes = []
+                if Tk is not None:
+                    probes += [("ktfwd", lambda: cols(Tk.forward, int(Tk.domain_dim))), ("ktadj", lambda: cols(Tk.adjoint, int(Tk.range_dim))),
+                               ("ktgm", lambda: dense(Tk.get_matrix()))]
+                probes += [("fwd", lambda: cols(M.forward, n_)), ("adj", lambda: cols(M.adjoint, m_)),
+                           ("tfwd", lambda: cols(M.T.forward, m_)), ("tadj", lambda: cols(M.T.adjoint, n_)),
+                           ("tgm", lambda: dense(M.T.get_matrix())), ("gm", lambda: dense(M.get_matrix()))]
+                for nm_, fn_ in probes:
                     try:
                         obs[nm_] = np.array(fl(fn_()), copy=True)
                     except Exception as e:
                         obs[nm_] = None; obs[nm_ + "_err"] = repr(e)[:100]
-            exact = gdF.exact and grF.exact and gd0.exact and gr0.exact and all(o == "gm" or o[1].exact for o in ops)
+            exact = all(g_.exact for g_ in allg)
             if out == "err":
                 if obs["fwd"] is not None and obs["adj"] is not None:
                     ctx.disagree(tiekey, desc, "err", "evaluates", "model predicts a shape error")
                 return
             f = fields(out)
             broken = []
-            for nm_ in ("fwd", "adj", "gm", "tfwd", "tadj", "tgm"):
+            for nm_ in ("fwd", "adj", "gm", "tfwd", "tadj", "tgm") + (("ktfwd", "ktadj", "ktgm") if Tk is not None else ()):
                 mv = None if f[nm_] == "err" else parse_L(f[nm_])
                 iv = obs[nm_]
                 if (mv is None) != (iv is None) or (mv is not None and not same(mv, iv, exact)):
@@ -1199,28 +1227,60 @@ def _run(ctx):
                                   "the transposed model's matrix is not the transpose of the forward map"))
                 if not wrong_adjoint and (Ad_ is None or differ(Ad_, F_.T, exact)):
                     fails.append((keyf("adjoint"), "matrix of adjoint = transpose of matrix of forward", None if Ad_ is None else Ad_.tolist(), "<A x, y> != <x, A* y>"))
+                # the KEPT transposed model is itself a linear model the library constructed: its adjoint must be the transpose of its forward, and
+                # its matrix must reproduce its forward map
+                if Tk is not None and not wrong_adjoint:
+                    ktag = "@history:geometry-reassigned-after-T" if after_T else tag
+                    kkey = lambda aspect: f"LinearModel:{aspect}:{kind}:{fam}:{gdF.label}>{grF.label}{ktag}"
+                    KF, KA, KG = obs["ktfwd"], obs["ktadj"], obs["ktgm"]
+                    if KF is None or KA is None or differ(KF.T, KA, exact):
+                        fails.append((kkey("T-kept"), "kept T: matrix of T.adjoint = transpose of matrix of T.forward", {"T.forward": None if KF is None else KF.tolist(), "T.adjoint": None if KA is None else KA.tolist()},
+                                      "<T x, y> != <x, T* y> for a transposed model kept across a geometry re-assignment of its parent"))
+                    if KF is not None and (KG is None or differ(KG, KF, exact)):
+                        fails.append((kkey("get_matrix") if (stale and not after_T) else kkey("T-kept"), "kept T: get_matrix()[:, j] = T.forward(e_j)", None if KG is None else KG.tolist(),
+                                      "the kept transposed model's matrix does not reproduce its forward map"))
             if broken:
                 ctx.disagree(tiekey, {**desc, "differs": broken}, out[:400], {k_: (None if obs[k_] is None else obs[k_].tolist()) for k_ in broken},
-                             "object after the history differs from the object model (get_matrix cache / current geometries / T's copied matrix)")
+                             "object after the history differs from the object model (get_matrix cache / current geometries / T's copied matrix / kept T)")
                 for (_k, dem, got, what) in fails:
                     ctx.fail(tiekey, desc, dem, got, what)
             for (k_, dem, got, what) in fails:
                 ctx.fail(k_, desc, dem, got, what)
-        jobs.append((f"hist fn {qm(A0)} {qm(B0)} {gd0.token} {gr0.token} {'|'.join(optoks) if optoks else '_'}", h))
+        jobs.append((f"hist {kind} {qm(A0)} {'-' if kind == 'mb' else qm(B0)} {gd0.token} {gr0.token} {'|'.join(optoks) if optoks else '_'}", h))
 
-    for _ in range(36 if not thorough else 300):
+    def random_history(kind):
         nD_, nR_ = rng.choice([4, 6]), rng.choice([3, 4, 6])
+        pD, pR = (hist_pool(nD_), hist_pool(nR_)) if kind == "fn" else (pool1(nD_), pool1(nR_))
+        gd_, gr_ = rng.choice(pD), rng.choice(pR)
+        gdc, grc = gd_, gr_
         L_ = rng.randrange(0, 6)
-        ops_ = []
+        ops_ = []; tookT = False
+        withT = rng.random() < 0.5
         for _j in range(L_):
             u_ = rng.random()
-            ops_.append("gm" if u_ < 0.4 else (("sd", rng.choice(hist_pool(nD_))) if u_ < 0.75 else ("sr", rng.choice(hist_pool(nR_)))))
-        hist_case(nD_, nR_, ops_, wrong_adjoint=(rng.random() < 0.2))
+            if withT and not tookT and u_ < 0.3:
+                ops_.append("T"); tookT = True
+            elif u_ < 0.45:
+                ops_.append("gm")
+            elif u_ < 0.75:
+                gdc = rng.choice(same_shape_pool(gdc) if tookT else pD); ops_.append(("sd", gdc))
+            else:
+                grc = rng.choice(same_shape_pool(grc) if tookT else pR); ops_.append(("sr", grc))
+        hist_case(nD_, nR_, ops_, wrong_adjoint=(kind == "fn" and rng.random() < 0.2), gd0=gd_, gr0=gr_, kind=kind)
+
+    for _ in range(44 if not thorough else 300):
+        random_history("fn")
+    for _ in range(12 if not thorough else 80):
+        random_history("mb")
     # fixed histories: the witnesses of cache_stale_counterexample / tGetMatrix_history_dependent_counterexample, re-assignment before caching
     hist_case(4, 4, ["gm", ("sd", gI(2, 2, "F"))], gd0=g1("Continuous1D", 4), gr0=g1("Continuous1D", 4))
     hist_case(4, 4, [("sd", gI(2, 2, "F")), "gm"], gd0=g1("Continuous1D", 4), gr0=g1("Continuous1D", 4))
     hist_case(4, 3, ["gm"], wrong_adjoint=True); hist_case(4, 3, [], wrong_adjoint=True)
     hist_case(6, 4, ["gm", ("sr", gI(2, 2, "F")), "gm", ("sd", gI(3, 2, "F"))]); hist_case(6, 6, [("sd", gI(2, 3, "F")), ("sr", gC2(3, 2)), "gm", "gm"])
+    # kept transposed model: witnesses of keptT_stale_counterexample (range / domain re-assigned after T), T after a cached matrix, matrix-backed parent
+    hist_case(4, 4, ["T", ("sr", gI(2, 2, "F"))], gd0=gI(2, 2, "C"), gr0=gI(2, 2, "C")); hist_case(4, 4, ["T", ("sd", gI(2, 2, "F"))], gd0=gI(2, 2, "C"), gr0=gI(2, 2, "C"))
+    hist_case(6, 4, ["gm", "T", ("sd", gC2(2, 3)), "gm"], gd0=gI(2, 3, "F"), gr0=gI(2, 2, "F")); hist_case(4, 4, ["T", "gm", ("sr", g1("Discrete", 4))], gd0=g1("Continuous1D", 4), gr0=g1("Continuous1D", 4))
+    hist_case(4, 3, ["T", ("sd", gS(4, 2))], kind="mb", gd0=g1("Continuous1D", 4), gr0=g1("Continuous1D", 3)); hist_case(4, 4, ["gm", "T", ("sr", g1("Discrete", 4)), ("sd", gS(4, 4))], kind="mb")
 
     # the class of inputs where geometry equality is asymmetric: `_DefaultGeometry1D.__eq__` accepts every Continuous1D
     # subclass with the same grid, so a default domain "equals" a StepExpansion range on the grid 0..n-1 and the
